@@ -57,7 +57,20 @@ func Prod(s *S) {
 	_ = h
 	f := s.Reset // P-MVALUE
 	_ = f
+	hd := holder{svc: s}
+	hd.svc.Reset() // P-MCALL-FIELD
+	newS().Reset() // P-MCALL-RESULT
+	list := []*S{s}
+	list[0].Reset() // P-MCALL-INDEX
+	(s).Reset() // P-MCALL-PAREN
+	(*s).Keep() // P-KEEP2
 }
+
+type holder struct {
+	svc *S
+}
+
+func newS() *S { return &S{} }
 
 type W struct {
 	h Helper // P-FIELD
@@ -75,7 +88,7 @@ func ZZC03Same() {
 	annM := nd.EnumPad("annM", " @testonly", " plain")
 	annFix := nd.EnumPad("annFix", " @testonly", " plain")
 	annFixM := nd.EnumPad("annFixM", " @testonly", " plain")
-	fname := nd.Enum("fname", "prod.go", "prod_test.go", "my_test.go.go")
+	fname := nd.Enum("fname", "prod.go", "prod_test.go", "my_test.go.go", "prod_Test.go", "prod_TEST.GO")
 	scan := nd.Bool("scan_tests")
 	holes := []nd.Hole{{"annH", annH}, {"annF", annF}, {"annM", annM}, {"annFix", annFix}, {"annFixM", annFixM}, {"fname", fname}}
 	files := []nd.File{{Pkg: "zzmod/d", Name: "d.go", Src: c03SrcD}, {Pkg: "zzmod/d", Name: "«fname»", Src: c03SrcProd}}
@@ -105,6 +118,10 @@ func ZZC03Same() {
 		{fd, nd.LineOf(c03SrcD, "D-FIELD-AFTER-FIXTURE"), "TONL01", nd.And(tH, fix)},
 		{fp, nd.LineOf(src, "P-CALL"), "TONL02", nd.And(tF, prod)},
 		{fp, nd.LineOf(src, "P-MCALL"), "TONL03", nd.And(tM, prod)},
+		{fp, nd.LineOf(src, "P-MCALL-FIELD"), "TONL03", nd.And(tM, prod)},
+		{fp, nd.LineOf(src, "P-MCALL-RESULT"), "TONL03", nd.And(tM, prod)},
+		{fp, nd.LineOf(src, "P-MCALL-INDEX"), "TONL03", nd.And(tM, prod)},
+		{fp, nd.LineOf(src, "P-MCALL-PAREN"), "TONL03", nd.And(tM, prod)},
 		{fp, nd.LineOf(src, "P-LIT"), "TONL01", nd.And(tH, prod)}, // first use of Helper in this file
 	}
 	CheckExact(res.Diags, exp, "C03 same package")
